@@ -26,6 +26,12 @@ Graph(g) with TaskGraphOK (recorded task graph, picker nodes contracted = depend
    or of the body itself, with the handle evaluated, unevaluated or dropped - after which the program goes on outside any block:
    eager twin, the same call again on the same or on a freshly built lazy pipeline, a new block, the other outputs.  Every
    begin/lbegin carries what lazy.task_graph() reports when the call is made, every block exit (`bleft`) what it reports afterwards.
+8. Assembled pipelines (PipelineLazy: assembly; d.asm / d.easm, PipelineIsLazy guarding LBegin): TLC checks the laws of the flag
+   operators on the assembly universe (parts joined by Pipeline.join or `|`, bare PipeFuncs, .copy() / .copy(lazy=...)), checks for
+   every description x assembly that a deferred handle is to be had exactly from a pipeline assembled lazy, and exports the lazy
+   assemblies with their eager twins.  Every exported description in every order additionally in a history on a pipeline PUT TOGETHER
+   as one of these assemblies (rotating), the cache / fault / abort histories on assembled pipelines in every other position, the
+   random DAGs (up to 6 functions, up to three parts) likewise.
 7. User caches of every in-memory kind (simple / lru / hybrid) in the before-the-block / inside-the-block histories: only the kind
    the block itself keeps (OwnCacheInBlock) may contribute nodes created before the block to the recorded graph.
 """
@@ -33,11 +39,13 @@ from __future__ import annotations
 
 import contextlib
 import copy
+import functools
 import io
 import itertools
 import json
 import math
 import multiprocessing
+import operator
 import random
 import warnings
 from concurrent.futures import ThreadPoolExecutor
@@ -59,13 +67,21 @@ INVS = ("InvNothingBeforeEvaluate InvAtMostOncePerNode InvExactlyOnceNeeded InvC
         "InvRetryIsAFirstEvaluate InvEagerReturnNoFault InvMutantsRejectedNoOld InvForeignCacheNeverOld")
 BCFG = """SPECIFICATION {spec}
 CONSTANTS N = {n} Rich = {rich} Shard = {shard} NShards = {nshards} MaxEv = {maxev} AllKw = {allkw} MaxHandles = {maxh}
-  Modes = {modes} UserCacheOn = {ucache} FaultsOn = {faults} MaxFailEv = {maxfail} CacheKinds = {ckinds}
+  Modes = {modes} UserCacheOn = {ucache} FaultsOn = {faults} MaxFailEv = {maxfail} CacheKinds = {ckinds} AsmOn = FALSE AsmMaxN = 0
 INVARIANT """ + INVS + "\n"
 UCFG = """SPECIFICATION LUSpec
 CONSTANTS N = {n} Rich = {rich} Shard = 0 NShards = 1 MaxEv = 2 AllKw = FALSE MaxHandles = 1 Modes = {{"call", "full"}} UserCacheOn = FALSE
-  FaultsOn = FALSE MaxFailEv = 0 CacheKinds = {{"simple"}}
+  FaultsOn = FALSE MaxFailEv = 0 CacheKinds = {{"simple"}} AsmOn = FALSE AsmMaxN = 0
 INVARIANT InvRefGraphOK InvDepEdgesStatic LEmit
 """
+# the ways a pipeline object is put together: laws of the flag operators on AsmUniverse(1..AsmMaxN) (ASSUME), the lazy assemblies
+# with their eager twins exported (ASMS), and every description of the shard x every assembly: a handle exactly from a lazy one
+ACFG = """SPECIFICATION LUSpec
+CONSTANTS N = {n} Rich = {rich} Shard = {shard} NShards = {nshards} MaxEv = 2 AllKw = FALSE MaxHandles = 1 Modes = {{"call", "full"}}
+  UserCacheOn = FALSE FaultsOn = FALSE MaxFailEv = 0 CacheKinds = {{"simple"}} AsmOn = TRUE AsmMaxN = {maxn}
+INVARIANT InvLazyExactlyWhenAssembledLazy
+"""
+ASM_MAXN = 6                        # random DAGs have up to 6 functions
 # invariants re-checked on the states TLC reaches while explaining real behaviour (the action guards decide acceptance)
 TRACE_INVS = ["InvNothingBeforeEvaluate", "InvAtMostOncePerNode", "InvExactlyOnceNeeded", "InvValueIsEval", "InvGraphIsOK",
               "InvDoneOnlyNeeded", "InvFailuresAccounted", "InvNoValueFromFailure"]
@@ -369,11 +385,54 @@ def lazy_history(pl, out: str, kw_pairs: list[list], mode: str, dagvar: str, k: 
     return block_history(pl, [(out, kw_pairs, mode)], dagvar, k)
 
 
-def make_pair(pdesc_ordered: dict, cache_type: str | None = None):
+def assemble(funcs: list[dict], asm: dict, tag: str, cache_type: str | None = None):
+    """The real pipeline put together as the assembly says (PipelineLazy.tla, assembly): the listing cut into parts - Pipeline(part,
+    lazy=flag) or a bare PipeFunc -, the parts joined by Pipeline.join / `|`, then the copies.  A user cache is a setting of the
+    receiver (the first part).  Nothing here looks at the resulting pipeline's `lazy` attribute: the recorded history is judged."""
+    parts, pos = [], 0
+    for j, part in enumerate(asm["parts"]):
+        fds = funcs[pos:pos + part["n"]]
+        pos += part["n"]
+        if part["kind"] == "func":
+            parts.append(build.make_pipefunc(fds[0], tag))
+        else:
+            extra = {"cache_type": cache_type, "cache_kwargs": {}} if cache_type and j == 0 else {}
+            parts.append(build.make_pipeline({"funcs": fds, "lazy": part["lazy"], **extra}, tag=tag))
+    if pos != len(funcs) or (asm["op"] == "direct") != (len(parts) == 1):
+        raise MachineryError(f"assembly does not fit the description: {asm}")
+    if asm["op"] == "direct":
+        pl = parts[0]
+    elif asm["op"] == "join":
+        pl = parts[0].join(*parts[1:])
+    else:
+        pl = functools.reduce(operator.or_, parts)
+    for upd in asm["post"]:
+        pl = pl.copy() if upd == "copy" else pl.copy(lazy=upd == "copy_lazy")
+    return pl
+
+
+def with_asm(tdesc_ordered: dict, asm: dict | None) -> dict:
+    """The description of a trace, with how its two pipelines were put together (asm: an exported {asm, twin} pair)."""
+    return tdesc_ordered if asm is None else {**tdesc_ordered, "asm": asm["asm"], "easm": asm["twin"]}
+
+
+def cache_asm(asm: dict | None) -> dict | None:
+    """The assembly of a history WITH a user cache: only assemblies all of whose pipeline parts are lazy (the cache is the receiver's
+    setting; an EAGER pipeline with a cache - given, or pipefunc's default for cache=True functions - keeps a shared one, run by a
+    manager process, and an eager receiver turned lazy by .copy(lazy=True) would hand that setting on); otherwise the pipeline is
+    constructed directly as before."""
+    return asm if asm is not None and all(p["lazy"] or p["kind"] == "func" for p in asm["asm"]["parts"]) else None
+
+
+def make_pair(pdesc_ordered: dict, cache_type: str | None = None, asm: dict | None = None):
     """The lazy pipeline and its eager twin, built from the same description (separate function objects).  A user cache
-    (cache_type + the functions' cache flags) is given to the lazy pipeline only."""
+    (cache_type + the functions' cache flags) is given to the lazy pipeline only.  asm: an exported {asm, twin} pair: the two
+    pipelines are put together as it says instead of being constructed directly."""
     with contextlib.redirect_stdout(io.StringIO()), warnings.catch_warnings():
         warnings.simplefilter("ignore")
+        if asm is not None:
+            return (assemble(pdesc_ordered["funcs"], asm["asm"], "L:", cache_type),
+                    assemble([{**f, "cache": False} for f in pdesc_ordered["funcs"]], asm["twin"], "E:"))
         extra = {"cache_type": cache_type, "cache_kwargs": {}} if cache_type else {}
         lpl = build.make_pipeline({**pdesc_ordered, "lazy": True, **extra}, tag="L:")
         # (cache=True functions would give the twin pipefunc's default shared LRU cache: the twin stays cache-free)
@@ -383,7 +442,31 @@ def make_pair(pdesc_ordered: dict, cache_type: str | None = None):
     return lpl, epl
 
 
-def histories_for_case(case: dict, rng: random.Random, scheme: str, idx: int = 0) -> list[dict]:
+def assembled_history(tdesc: dict, order: tuple, asm: dict, cuts: dict, k: int) -> dict:
+    """A lazy pipeline that was PUT TOGETHER (asm: an exported assembly that yields a lazy pipeline, with its eager twin): every
+    (output, valid cut) by one lazy history (calling convention and dag variant rotating), the eager twin in every other position,
+    then one cut of every output as successive handles of one construct_dag() block."""
+    pd = pcall.tla_desc_to_py(tdesc)
+    lpl, epl = make_pair({"funcs": [pd["funcs"][i] for i in order]}, asm=asm)
+    evs: list[dict] = []
+    ci = 0
+    for o in sorted(cuts):
+        for c in cuts[o]:
+            kw = [[x, pcall.kv(x)] for x in c]
+            kk = k + ci
+            if kk % 2 == 0:
+                evs += eager_call(epl, o, kw, MODES[(kk // 2) % 4])
+            evs += lazy_history(lpl, o, kw, MODES[kk % 4], DAGVARS[(kk + kk // 4) % 3], kk)
+            ci += 1
+    outs_with = [o for o in sorted(cuts) if cuts[o]]
+    if len(outs_with) > 1:
+        seq = outs_with if k % 2 == 0 else outs_with[::-1]
+        evs += block_history(lpl, [(o, [[x, pcall.kv(x)] for x in cuts[o][(k // 2) % len(cuts[o])]], MODES[(k + j) % 4])
+                                   for j, o in enumerate(seq)], "in", k)
+    return {"desc": with_asm({"funcs": [tdesc["funcs"][i] for i in order]}, asm), "ev": evs, "order": list(order)}
+
+
+def histories_for_case(case: dict, rng: random.Random, scheme: str, idx: int = 0, asms: list | None = None) -> list[dict]:
     """One history per listing order of the description.
     scheme "full": every (output, valid cut) in every order: eager twin, lazy without dag, lazy under construct_dag.
     scheme "lean": every (output, valid cut) in every order by one lazy history (calling convention and dag variant rotate
@@ -395,6 +478,14 @@ def histories_for_case(case: dict, rng: random.Random, scheme: str, idx: int = 0
     n = len(pdesc["funcs"])
     names = sorted({p for f in pdesc["funcs"] for p in f["params"]} | {o for f in pdesc["funcs"] for o in f["outputs"]})
     traces = []
+    asms = asms or []
+
+    def asm_for(slot: int, oi: int):
+        """The assembly of a secondary history (every other position; rotating through the exported lazy assemblies)."""
+        if not asms or (idx + oi + slot) % 2 == 0:
+            return None
+        return asms[(5 * idx + 3 * oi + 7 * slot) % len(asms)]
+
     for oi, order in enumerate(itertools.permutations(range(n))):
         d2 = {"funcs": [pdesc["funcs"][i] for i in order]}
         t2 = {"funcs": [tdesc["funcs"][i] for i in order]}
@@ -440,12 +531,15 @@ def histories_for_case(case: dict, rng: random.Random, scheme: str, idx: int = 0
             evs += block_history(lpl, [(o, [[x, pcall.kv(x)] for x in cuts[o][(oi // 2) % len(cuts[o])]], MODES[(oi + j) % 4])
                                        for j, o in enumerate(seq)], "in", oi)
         traces.append({"desc": t2, "ev": evs, "order": list(order)})
+        # the same description as a lazy pipeline that was put together from parts (join / | / copy) instead of constructed
+        if asms and (scheme == "full" or oi % 3 == 2):
+            traces.append(assembled_history(tdesc, order, asms[(idx * math.factorial(n) + oi) % len(asms)], cuts, idx + oi))
         # the same description as a pipeline with a user cache: called before and then inside a construct_dag() block
         if scheme == "full" or oi % 3 == 0:
             v = oi + len(names)
             tc = with_cache(tdesc, ["first", "all", "last"][v % 3], CACHE_KINDS[(idx + oi // 3 + v // 3) % 4])
             traces.append(cached_history(tc, order, [(o, [[x, pcall.kv(x)] for x in root_cut(tdesc, cuts[o])])
-                                                     for o in sorted(cuts) if cuts[o]], v))
+                                                     for o in sorted(cuts) if cuts[o]], v, asm=asm_for(0, oi)))
         # the same description with a fault plan on its user functions.  Plan, variant and cuts rotate with the case index and
         # the order: over the universe every plan meets every variant and every dag variant / calling convention many times
         # (scheme "full": one per order; "lean": one in every third order)
@@ -459,7 +553,7 @@ def histories_for_case(case: dict, rng: random.Random, scheme: str, idx: int = 0
                 items = [(o, [[x, pcall.kv(x)] for x in
                               (root_cut(tdesc, cuts[o]) if variant == "cached" or (v + j) % 2 == 0 else cuts[o][(v + j) % len(cuts[o])])])
                          for j, o in enumerate(seq)]
-                traces.append(fault_history(tdesc, order, plan, variant, items, v))
+                traces.append(fault_history(tdesc, order, plan, variant, items, v, asm=asm_for(1, oi)))
         # the same description in a history whose construct_dag() block is left through an exception, followed by calls outside
         # any block (variant, calling convention and cuts rotate with the case index; the listing order alternates with it)
         if oi == idx % math.factorial(n):
@@ -468,7 +562,8 @@ def histories_for_case(case: dict, rng: random.Random, scheme: str, idx: int = 0
                 v = idx + oi
                 seq = outs_c[v % len(outs_c):] + outs_c[:v % len(outs_c)]
                 items = [(o, [[x, pcall.kv(x)] for x in cuts[o][(v // 2 + j) % len(cuts[o])]]) for j, o in enumerate(seq)]
-                traces.append(abort_history(tdesc, order, ABORT_VARIANTS[(idx // 2 + oi) % len(ABORT_VARIANTS)], items, v))
+                traces.append(abort_history(tdesc, order, ABORT_VARIANTS[(idx // 2 + oi) % len(ABORT_VARIANTS)], items, v,
+                                            asm=asm_for(2, oi)))
     return traces
 
 
@@ -480,14 +575,15 @@ def with_cache(tdesc: dict, which: str, cache_type: str) -> dict:
     return {"funcs": [{**f, "cache": i in sel} for i, f in enumerate(tdesc["funcs"])], "cache_type": cache_type}
 
 
-def cached_history(tdesc_c: dict, order: tuple, items: list[tuple], k: int) -> dict:
+def cached_history(tdesc_c: dict, order: tuple, items: list[tuple], k: int, asm: dict | None = None) -> dict:
     """A lazy pipeline WITH a user cache: every (out, kw) is called once outside any construct_dag() block (or inside an
     earlier block of its own), which leaves cached deferred nodes behind, and then again with the same inputs inside
     `with construct_dag()`: the recorded graph then mixes nodes created before the block with new ones."""
     pd = pcall.tla_desc_to_py(tdesc_c)
+    asm = cache_asm(asm)
     d2 = {"funcs": [pd["funcs"][i] for i in order]}
-    t2 = {"funcs": [tdesc_c["funcs"][i] for i in order], "cache_type": tdesc_c["cache_type"]}
-    lpl, _ = make_pair(d2, cache_type=tdesc_c["cache_type"])
+    t2 = with_asm({"funcs": [tdesc_c["funcs"][i] for i in order], "cache_type": tdesc_c["cache_type"]}, asm)
+    lpl, _ = make_pair(d2, cache_type=tdesc_c["cache_type"], asm=asm)
     evs: list[dict] = []
     for j, (o, kw) in enumerate(items):
         kk = k + j
@@ -504,7 +600,7 @@ def fault_plans(n: int) -> list[dict]:
     return [{i: 1} for i in range(n)] + [{i: -1} for i in range(n)] + [{i: 1 for i in range(n)}]
 
 
-def fault_history(tdesc: dict, order: tuple, plan: dict, variant: str, items: list[tuple], k: int) -> dict:
+def fault_history(tdesc: dict, order: tuple, plan: dict, variant: str, items: list[tuple], k: int, asm: dict | None = None) -> dict:
     """One history on a fresh lazy pipeline / eager twin pair whose user functions follow a fault plan.
     plan: {index into tdesc.funcs: 1 (the first invocation raises) | -1 (every invocation raises)}; items: [(out, kw_pairs)].
     retry : per item three evaluate() calls on ONE handle (first item: next to three eager calls of the twin)
@@ -516,13 +612,14 @@ def fault_history(tdesc: dict, order: tuple, plan: dict, variant: str, items: li
     # (every function cached: a cached consumer of an uncached producer keeps a producer node of its own, next to the one a
     # later full_output call creates - lazy x partial user cache is C09's subject, see the assumptions)
     tc = with_cache(tdesc, "all", "lru" if k % 5 == 4 else "simple") if variant == "cached" else tdesc
+    asm = cache_asm(asm) if variant == "cached" else asm
     pd = pcall.tla_desc_to_py(tc)
     for i, kind in plan.items():
         pd["funcs"][i]["fail"] = {"when": 0 if kind == 1 else "*", "cls": FAULT_CLS, "args": ["fault in " + pd["funcs"][i]["name"]]}
-    t2 = {"funcs": [tc["funcs"][i] for i in order], "faults": [plan.get(i, 0) for i in order]}
+    t2 = with_asm({"funcs": [tc["funcs"][i] for i in order], "faults": [plan.get(i, 0) for i in order]}, asm)
     if variant == "cached":
         t2["cache_type"] = tc["cache_type"]
-    lpl, epl = make_pair({"funcs": [pd["funcs"][i] for i in order]}, cache_type=tc.get("cache_type"))
+    lpl, epl = make_pair({"funcs": [pd["funcs"][i] for i in order]}, cache_type=tc.get("cache_type"), asm=asm)
     evs: list[dict] = []
     if variant == "retry":
         for j, (o, kw) in enumerate(items):
@@ -547,7 +644,7 @@ def fault_history(tdesc: dict, order: tuple, plan: dict, variant: str, items: li
 ABORT_VARIANTS = ["refused", "body", "fault", "unevaluated"]
 
 
-def abort_history(tdesc: dict, order: tuple, variant: str, items: list[tuple], k: int) -> dict:
+def abort_history(tdesc: dict, order: tuple, variant: str, items: list[tuple], k: int, asm: dict | None = None) -> dict:
     """A construct_dag() block that is left through an exception, and what the program does afterwards outside any block.
     items: [(out, kw_pairs)], the first one is the main call.
     refused    : inside the block the main call (evaluated twice), then a call that is refused - a needed keyword dropped | the
@@ -562,13 +659,13 @@ def abort_history(tdesc: dict, order: tuple, variant: str, items: list[tuple], k
     n = len(tdesc["funcs"])
     pd = pcall.tla_desc_to_py(tdesc)
     o0, kw0 = items[0]
-    t2: dict = {"funcs": [tdesc["funcs"][i] for i in order]}
+    t2: dict = with_asm({"funcs": [tdesc["funcs"][i] for i in order]}, asm)
     if variant == "fault":
         i = next(j for j in range(n) if o0 in pd["funcs"][j]["outputs"])
         pd["funcs"][i]["fail"] = {"when": 0, "cls": FAULT_CLS, "args": ["fault in " + pd["funcs"][i]["name"]]}
         t2["faults"] = [1 if j == i else 0 for j in order]
     d2 = {"funcs": [pd["funcs"][i] for i in order]}
-    lpl, epl = make_pair(d2)
+    lpl, epl = make_pair(d2, asm=asm)
     m = [MODES[(k + j) % 4] for j in range(4)]
     if variant == "refused":
         names = sorted({p for f in pd["funcs"] for p in f["params"]} | {o for f in pd["funcs"] for o in f["outputs"]})
@@ -593,7 +690,7 @@ def abort_history(tdesc: dict, order: tuple, variant: str, items: list[tuple], k
         evs += eager_call(epl, o0, kw0, m[2])            # (the twin's first call raised: its plan is its own)
         after = lpl                                       # (a freshly built pipeline would come with a fresh fault plan)
     else:
-        after = make_pair(d2)[0] if k % 2 else lpl
+        after = make_pair(d2, asm=asm)[0] if k % 2 else lpl
     evs += block_history(after, [(o0, kw0, m[2], 2)], "off", k + 1)
     if k % 2 == 0:
         evs += block_history(lpl, [(o0, kw0, m[3])], "in" if k % 4 < 2 else "out", k + 2)
@@ -611,11 +708,11 @@ def root_cut(tdesc: dict, cs: list) -> tuple:
     return next((c for c in cs if not set(c) & outs), cs[0])
 
 
-def random_history(rng: random.Random, tdesc: dict) -> dict:
+def random_history(rng: random.Random, tdesc: dict, asm: dict | None = None) -> dict:
     pdesc = pcall.tla_desc_to_py(tdesc)
     order = list(range(len(pdesc["funcs"])))
     rng.shuffle(order)
-    lpl, epl = make_pair({"funcs": [pdesc["funcs"][i] for i in order]})
+    lpl, epl = make_pair({"funcs": [pdesc["funcs"][i] for i in order]}, asm=asm)
     outs = [o for f in pdesc["funcs"] for o in f["outputs"]]
     evs: list[dict] = []
     for k in range(6):
@@ -640,10 +737,10 @@ def random_history(rng: random.Random, tdesc: dict) -> dict:
         c = rng.choice(sorted(epl.arg_combinations(o)))
         items.append((o, [[x, pcall.kv(x)] for x in c], rng.choice(MODES)))
     evs += block_history(lpl, items, "in", 7)
-    return {"desc": {"funcs": [tdesc["funcs"][i] for i in order]}, "ev": evs, "order": order}
+    return {"desc": with_asm({"funcs": [tdesc["funcs"][i] for i in order]}, asm), "ev": evs, "order": order}
 
 
-def random_cached_history(rng: random.Random, tdesc: dict) -> dict:
+def random_cached_history(rng: random.Random, tdesc: dict, asm: dict | None = None) -> dict:
     order = list(range(len(tdesc["funcs"])))
     rng.shuffle(order)
     outs = [o for f in tdesc["funcs"] for o in f["outputs"]]
@@ -658,10 +755,10 @@ def random_cached_history(rng: random.Random, tdesc: dict) -> dict:
         combos = sorted(probe.arg_combinations(o))
         c = next((c for c in combos if set(c) <= set(roots)), combos[0])
         items.append((o, [[x, pcall.kv(x)] for x in c]))
-    return cached_history(tc, tuple(order), items, rng.randrange(12))
+    return cached_history(tc, tuple(order), items, rng.randrange(12), asm=asm)
 
 
-def random_fault_history(rng: random.Random, tdesc: dict) -> dict:
+def random_fault_history(rng: random.Random, tdesc: dict, asm: dict | None = None) -> dict:
     """A random DAG with a random fault plan (one or two faulty functions, transient or persistent), a random variant, two or
     three requested outputs (the later functions - the consumers - preferred) under valid argument combinations."""
     n = len(tdesc["funcs"])
@@ -680,10 +777,10 @@ def random_fault_history(rng: random.Random, tdesc: dict) -> dict:
         rootc = [c for c in combos if set(c) <= roots]
         c = rng.choice(rootc) if rootc and (variant == "cached" or rng.random() < 0.7) else rng.choice(combos)
         items.append((o, [[x, pcall.kv(x)] for x in c]))
-    return fault_history(tdesc, tuple(order), plan, variant, items, rng.randrange(12))
+    return fault_history(tdesc, tuple(order), plan, variant, items, rng.randrange(12), asm=asm)
 
 
-def random_abort_history(rng: random.Random, tdesc: dict) -> dict:
+def random_abort_history(rng: random.Random, tdesc: dict, asm: dict | None = None) -> dict:
     """A random DAG in a history whose construct_dag() block is left through an exception (random variant, two or three requested
     outputs under valid argument combinations, the consumers preferred as the main call)."""
     n = len(tdesc["funcs"])
@@ -694,22 +791,32 @@ def random_abort_history(rng: random.Random, tdesc: dict) -> dict:
         probe = build.make_pipeline(pcall.tla_desc_to_py(tdesc), tag="P:")
     picked = sorted(rng.sample(outs, min(rng.randint(2, 3), len(outs))), key=outs.index, reverse=True)
     items = [(o, [[x, pcall.kv(x)] for x in rng.choice(sorted(probe.arg_combinations(o)))]) for o in picked]
-    return abort_history(tdesc, tuple(order), rng.choice(ABORT_VARIANTS), items, rng.randrange(12))
+    return abort_history(tdesc, tuple(order), rng.choice(ABORT_VARIANTS), items, rng.randrange(12), asm=asm)
 
 
 # worker-process entry points (fork pool; every task is seeded by its own index: deterministic for a given --seed)
 def _w_case(arg: tuple) -> list[dict]:
-    idx, case, seed, scheme = arg
+    idx, case, seed, scheme, asms = arg
     build.LOG.clear()
-    return histories_for_case(case, random.Random(seed * 1_000_003 + idx), scheme, idx)
+    return histories_for_case(case, random.Random(seed * 1_000_003 + idx), scheme, idx, asms)
+
+
+def random_asm_picks(seed: int, idx: int, asms: dict[int, list]) -> dict[int, list]:
+    """Per number of functions of the random DAG (3..6): how each of the four random histories of task idx gets its pipelines: None
+    (constructed directly) or one of the exported lazy assemblies (drawn by the main process: the workers' own random streams, and
+    with them the random DAGs, are what they were without assemblies)."""
+    rng = random.Random(seed * 1_000_003 + 900_000 + idx)
+    return {n: [rng.choice(asms[n]) if asms.get(n) and rng.random() < 0.5 else None for _ in range(4)] for n in range(3, 7)}
 
 
 def _w_random(arg: tuple) -> list[dict]:
-    idx, seed = arg
+    idx, seed, picks = arg
     rng = random.Random(seed * 1_000_003 + 500_000 + idx)
     build.LOG.clear()
     td = c02.random_desc(rng, rng.randint(3, 6))
-    return [random_history(rng, td), random_cached_history(rng, td), random_fault_history(rng, td), random_abort_history(rng, td)]
+    a = picks[len(td["funcs"])]
+    return [random_history(rng, td, a[0]), random_cached_history(rng, td, a[1]), random_fault_history(rng, td, a[2]),
+            random_abort_history(rng, td, a[3])]
 
 
 # ---- verdicts ------------------------------------------------------------------------------------------
@@ -746,6 +853,11 @@ def classify(tr: dict, reached: int) -> dict:
     sig = {"check": "lazy-history", "event": e["e"], "stage": stage, "cls": e.get("cls", ""), "mode": b["mode"],
            "dag": bool(b.get("dag", False)), **c02.features(tr["desc"], b["out"], b["kw"])}
     outs = {o for f in tr["desc"]["funcs"] for o in f["outputs"]}
+    # how the pipeline under call was obtained: constructed directly, or put together from parts (join / | / copy)
+    asm = tr["desc"].get("asm")
+    sig["assembly"] = asm["op"] if asm else "constructor"
+    if asm:
+        sig["assembly_copies"] = list(asm["post"])
     sig["user_cache"] = bool(tr["desc"].get("cache_type"))
     if sig["user_cache"]:
         sig["cache_type"] = tr["desc"]["cache_type"]
@@ -942,7 +1054,12 @@ def run(ctx: Ctx) -> None:
                 "invocation, all raising on their first; plan and variant rotate with the case): three successive eager calls "
                 "next to three successive evaluate() calls on one handle | a handle abandoned after an evaluate() that raised, "
                 "then the other outputs as further handles of the same construct_dag block (sharing its nodes), then the first "
-                "again outside | the same through a user cache (all functions cached); "
+                "again outside | the same through a user cache (all functions cached); every description in every order "
+                "additionally on a lazy pipeline that was PUT TOGETHER instead of constructed - one of the TLC-exported lazy "
+                "assemblies, rotating: the listing cut into up to three parts (lazy or eager pipelines, bare PipeFuncs) joined by "
+                "Pipeline.join or `|`, then nothing / .copy() / .copy(lazy=...) - with its eager twin put together the same way from "
+                "eager parts: every valid cut by one lazy history, one block across the outputs; the cache / fault / abort "
+                "histories and the random DAGs on assembled pipelines in every other position; "
                 "descriptions are ALL members of the TLA+-defined universe of MC_PipelineCall (2 functions quick / 2 rich + 3 "
                 "functions thorough: parameters from 3 roots and earlier outputs, diamonds, tuple outputs, defaults, bound "
                 "and shadowing bound values), all listing orders, every valid cut (2 functions: in every order without dag "
@@ -957,6 +1074,10 @@ def run(ctx: Ctx) -> None:
                        "with a user cache of the kind the block itself keeps (simple) tasks created before the block may be "
                        "missing from the recorded graph (stated don't-care, TaskGraphOKFor); with every other kind the graph "
                        "must be complete",
+                       "assembled pipelines: a derived pipeline has the settings of the pipeline it is a copy of (join / | : the "
+                       "receiver); an eager receiver collecting the functions of lazy pipelines is a stated don't-care (not in "
+                       "the assembly universe); a user cache is a setting of the receiver, and histories with a user cache use "
+                       "assemblies made of lazy pipelines and bare functions only",
                        "whether a construct_dag() block is active is observed through pipefunc.lazy.task_graph()",
                        "faults: a harness function raises HarnessError('fault in <name>') on its first invocation or on every one "
                        "(build.py failure injection); with a user cache only pipelines whose functions are all cached, outside "
@@ -1031,6 +1152,16 @@ def run(ctx: Ctx) -> None:
         exp_jobs = [(what, scheme, pool.submit(tlc_job, "MC_PipelineLazy", UCFG.format(**consts), ctx.workdir(wd), workers=2,
                                                allow_violation=False, timeout=6000, heap=heap))
                     for what, consts, wd, heap, scheme in exports]
+        # the assemblies (laws + export; every description of one shard x every assembly); its result is needed before any history
+        r = tlc_job("MC_PipelineLazy", ACFG.format(n=2, rich="FALSE", shard=5 if quick else 0, nshards=8 if quick else 1, maxn=ASM_MAXN),
+                    ctx.workdir("asm"), workers=2, allow_violation=False, timeout=6000, heap="2g")
+        ctx.add_tlc(r, f"LUSpec N=2{' shard 6/8' if quick else ''} x every assembly (join / | / copy; lazy or not): handle exactly from a lazy pipeline; "
+                       f"laws of the flag operators on assemblies of 1..{ASM_MAXN} functions; lazy assemblies exported")
+        asms: dict[int, list] = {p["n"]: sorted(p["asms"], key=lambda a: json.dumps(a, sort_keys=True))
+                                 for t, p in parse_prints(r.prints) if t == "ASMS"}
+        if sorted(asms) != list(range(1, ASM_MAXN + 1)) or not all(asms.values()) or r.distinct == 0:
+            raise MachineryError(f"assembly export incomplete: {sorted(asms)} ({r.distinct} states)")
+        ctx.extra["lazy_assemblies_exported"] = {str(n): len(v) for n, v in asms.items()}
         kept: list[dict] = []
         ncases = 0
         stats = {}
@@ -1040,7 +1171,7 @@ def run(ctx: Ctx) -> None:
             cases = sorted((p for t, p in parse_prints(r.prints) if t == "CASE"), key=lambda c: json.dumps(c, sort_keys=True))
             if not cases or len(cases) != r.distinct:
                 raise MachineryError(f"{what}: {len(cases)} cases printed for {r.distinct} states")
-            args = [(ncases + i, c, ctx.seed, scheme) for i, c in enumerate(cases)]
+            args = [(ncases + i, c, ctx.seed, scheme, asms.get(len(c["desc"]["funcs"]), [])) for i, c in enumerate(cases)]
             ncases += len(cases)
             stats[what] = stream_validate(ctx, "u" + what.split("=")[1].replace(" ", ""), windowed(procs, _w_case, args, 500),
                                           batch=560 if scheme == "full" else 6000, chunk=70 if scheme == "full" else 750,
@@ -1053,7 +1184,7 @@ def run(ctx: Ctx) -> None:
 
         nrand = 150 if quick else 2500
         rkept: list[dict] = []
-        stats["random"] = stream_validate(ctx, "rand", windowed(procs, _w_random, [(i, ctx.seed) for i in range(nrand)], 500),
+        stats["random"] = stream_validate(ctx, "rand", windowed(procs, _w_random, [(i, ctx.seed, random_asm_picks(ctx.seed, i, asms)) for i in range(nrand)], 500),
                                           batch=200 if quick else 1250, chunk=50 if quick else 160, invs=TRACE_INVS,
                                           keep=rkept, keep_n=1)
         ctx.sample({"random_desc": rkept[0]["desc"], "events": rkept[0]["ev"][:12]})
@@ -1113,11 +1244,20 @@ def selftest(ctx: Ctx, traces: list[dict]) -> None:
                     return k
         return -1
 
+    def joined(tr) -> bool:
+        """a history on a pipeline joined from several parts (no copy that states the flag) with calls on both pipelines"""
+        a = tr["desc"].get("asm")
+        return (bool(a) and a["op"] in ("join", "or") and all(u == "copy" for u in a["post"])
+                and any(x["e"] == "begin" for x in tr["ev"]) and any(x["e"] == "lbegin" for x in tr["ev"]))
+
     try:
         good = [pick(has_eval_calls), pick(has_edges), pick(lambda evs: retry_at(evs) >= 0), pick(left_by_exc),
-                copy.deepcopy(next((t for t in traces if foreign_cache_block(t) >= 0), None))]
+                copy.deepcopy(next((t for t in traces if foreign_cache_block(t) >= 0), None)),
+                copy.deepcopy(next((t for t in traces if joined(t)), None))]
         if good[4] is None:
             raise MachineryError("self-test: no history with a user cache of a kind the block replaces")
+        if good[5] is None:
+            raise MachineryError("self-test: no history on a joined pipeline")
     except MachineryError:
         if not ctx.violations:
             raise
@@ -1211,8 +1351,16 @@ def selftest(ctx: Ctx, traces: list[dict]) -> None:
     tgt = next(n["id"] for n in g["nodes"] if n["kind"] == "func" and any(b == n["id"] for _, b in g["edges"]))
     g["edges"] = [e2 for e2 in g["edges"] if e2[1] != tgt]
     add("graph of a block on a foreign-cache pipeline lacks the edges into a task", t, k)
+    # 16./17. a joined pipeline: the receiver reported as an eager pipeline (the first call that hands out a handle is rejected) /
+    # the twin's receiver reported as a lazy one (the first eager call is rejected)
+    t = copy.deepcopy(good[5])
+    t["desc"]["asm"]["parts"][0]["lazy"] = False
+    add("receiver of the joined pipeline reported eager", t, first(t["ev"], lambda x: x["e"] == "lbegin"))
+    t = copy.deepcopy(good[5])
+    t["desc"]["easm"]["parts"][0]["lazy"] = True
+    add("receiver of the joined eager twin reported lazy", t, first(t["ev"], lambda x: x["e"] == "begin"))
     rej = validate_traces(ctx, "TracePipelineLazy", batch, "selftest", invariants=[], strip=STRIP, count=False)
-    ctx.selftest("trace-corruption (15 single corruptions + 5 untouched histories)", rej == expect,
+    ctx.selftest("trace-corruption (17 single corruptions + 6 untouched histories)", rej == expect,
                  f"rejected={rej} expected={expect} ({names})")
 
 
@@ -1224,7 +1372,8 @@ def replay(rep: dict) -> int:
     for fd, kind in zip(pdesc["funcs"], tdesc.get("faults", [])):
         if kind:        # (a fresh pair: the fault plan starts over, whatever earlier calls of the original history used up)
             fd["fail"] = {"when": 0 if kind == 1 else "*", "cls": FAULT_CLS, "args": ["fault in " + fd["name"]]}
-    lpl, epl = make_pair(pdesc, cache_type=tdesc.get("cache_type"))
+    lpl, epl = make_pair(pdesc, cache_type=tdesc.get("cache_type"),
+                         asm={"asm": tdesc["asm"], "twin": tdesc["easm"]} if "asm" in tdesc else None)
     build.LOG.clear()
     if b["e"] == "begin":
         evs = eager_call(epl, b["out"], b["kw"], "full" if b["mode"] == "full" else "call")
